@@ -372,7 +372,14 @@ def run_shard(ctx):
 
 
 PART_POOL = ['a', 'Tbl', 'mixedCase', 'x_y', '_u', 'col1', '1st', '9', '007', 'my col', 'a-b', 'a.b', 'é', 'Ünï', 'select', 'FROM',
-             'Order', 'group by', 'primary_key', 'last', 'LATEST', 'a b.c d', '$x', 'a$1', 'x y z', '.', 'a.', '.a', 'status', 'Table']
+             'Order', 'group by', 'primary_key', 'last', 'LATEST', 'a b.c d', '$x', 'a$1', 'x y z', '.', 'a.', '.a', 'status', 'Table',
+             'a ', ' a', ' a b ', 'Sheet1 ', '  ', 'STRASSE', 'straße', 'FI', 'ﬁ', 'ſ', 'S', 'İ', 'i̇']
+
+# names that some case mapping / normalisation identifies with one another although they are different names
+# (upper(): ß -> SS, ﬁ -> FI, ſ -> S; lower(): İ -> i̇, K (kelvin) -> k): checked in both orders inside one process,
+# so that anything the library remembers about the first cannot leak into the second
+COLLIDING = [('STRASSE', 'straße'), ('Strasse', 'Straße'), ('FI', 'ﬁ'), ('S', 'ſ'), ('i̇', 'İ'), ('k', '\u212a'), ('a', 'A'),
+             ('select', 'SELECT'), ('tbl', 'Tbl'), ('x y', 'X Y'), ('ss', 'ß'), ('É', 'é')]
 
 
 def part_feat(p):
@@ -387,7 +394,7 @@ def part_feat(p):
         if '.' in p:
             f.append('dot')
         if ' ' in p:
-            f.append('space')
+            f.append('space' if p.strip() == p else 'edge-blank')
         if re.match(r'[0-9]', p):
             f.append('digits-first' if not p.isdigit() else 'digits')
         if any(ord(c) > 127 for c in p):
@@ -544,6 +551,38 @@ def run_identifiers(ctx, idx):
                     sig = {'direction': 'print', 'kind': 'identifier', 'dialect_class': 'mindsdb' if dialect == 'mindsdb' else 'mysql/sqlite',
                            'failure': 'printed-not-read-back', 'feat': part_feat(culprit) if culprit else 'path:' + '|'.join(feats)}
                     acc.fail(sig, {'parts': parts, 'printed': txt, 'dialect': dialect, 'got': got})
+    # ---- names identified by a case mapping: each order, one after the other in this process -----------
+    for ci, (x, y) in enumerate(COLLIDING):
+        for first, second in ((x, y), (y, x)):
+            idx += 1
+            if not ctx.mine(idx):
+                continue
+            for dialect in DIALECTS:
+                acc.ev()
+                acc.count('collision_pairs_checked')
+                acc.key('collide', first, second, dialect)
+                obs = []
+                for name in (first, second, first):
+                    try:
+                        txt = Identifier(parts=[name]).to_string()
+                        n = parse_sql('SELECT ' + txt + ' FROM ' + txt, dialect)
+                        obs.append(([str(q) for q in n.targets[0].parts] if type(n.targets[0]).__name__ == 'Identifier' else 'not-an-identifier',
+                                    [str(q) for q in n.from_table.parts]))
+                    except Exception as e:
+                        obs.append('rejected:' + type(e).__name__)
+                want = [([first], [first]), ([second], [second]), ([first], [first])]
+                if obs != want:
+                    # a name that fails on its own is the single-name check's business, not an interaction
+                    alone = []
+                    for name in (first, second):
+                        try:
+                            txt = Identifier(parts=[name]).to_string()
+                            alone.append(split_path(txt) == [name])
+                        except Exception:
+                            alone.append(False)
+                    sig = {'direction': 'print', 'kind': 'identifier', 'dialect_class': 'mindsdb' if dialect == 'mindsdb' else 'mysql/sqlite',
+                           'failure': 'second-name-disturbed-by-first', 'feat': part_feat(second)}
+                    acc.fail(sig, {'first': first, 'second': second, 'dialect': dialect, 'observed': repr(obs), 'expected': repr(want)})
     # ---- variables -------------------------------------------------------------------------------
     from mindsdb_sql.parser.ast import Variable
     VARS = ['x', 'my_var', 'a.b', 'X', 'sess.v', '$v']
